@@ -51,32 +51,23 @@ fn main() {
         println!("chunks: {:?}", metadata.list_chunks().await.unwrap().len());
         let qn = QueryNode::new(QueryConfig::default(), object_store.clone(), metadata.clone(), storage_config.clone()).await.unwrap();
         let sqls = [
-            "SELECT * FROM metrics WHERE timestamp = 5 OR timestamp = 10",
-            "SELECT * FROM metrics WHERE timestamp < 200 AND (timestamp > 100 OR timestamp = 5)",
-            "SELECT * FROM metrics WHERE 5 = timestamp",
-            "SELECT * FROM metrics WHERE timestamp >= 0 AND NOT (timestamp > 1000)",
-            "SELECT * FROM metrics WHERE timestamp BETWEEN 1 AND 150",
-            "SELECT * FROM metrics WHERE timestamp NOT BETWEEN 5 AND 150 AND timestamp >= 0 AND timestamp <= 1000",
-            "SELECT * FROM metrics WHERE timestamp >= '1970-01-01T00:00:00Z' AND timestamp <= '1970-01-01T00:00:01Z'",
-            "SELECT * FROM metrics WHERE timestamp >= TIMESTAMP '1970-01-01T00:00:00Z' AND timestamp <= TIMESTAMP '1970-01-01T00:00:01Z'",
-            "SELECT * FROM metrics WHERE timestamp >= to_timestamp_nanos(0) AND timestamp <= to_timestamp_nanos(150)",
-            "SELECT * FROM metrics WHERE timestamp >= CAST(0 AS BIGINT) AND timestamp <= CAST(150 AS BIGINT)",
-            "SELECT * FROM metrics WHERE timestamp > now() - interval '5 minutes' AND timestamp <= now()",
-            "SELECT * FROM metrics WHERE timestamp >= arrow_cast(0, 'Timestamp(Nanosecond, Some(\"UTC\"))') AND timestamp <= arrow_cast(150, 'Timestamp(Nanosecond, Some(\"UTC\"))')",
-            "SELECT * FROM metrics WHERE timestamp >= 0 AND timestamp <= 1000 AND host = 'h1'",
-            "SELECT * FROM metrics WHERE timestamp >= 0 AND timestamp <= 1000 AND 'h1' = host",
-            "SELECT * FROM metrics WHERE timestamp >= -5 AND timestamp <= 1000",
-            "SELECT * FROM metrics WHERE timestamp >= 0 AND timestamp <= 9223372036854775807",
-            "SELECT * FROM metrics WHERE timestamp >= 0 AND timestamp <= 9223372036854775808",
-            "SELECT * FROM metrics WHERE timestamp >= 0.5 AND timestamp <= 1000",
-            "SELECT * FROM metrics WHERE timestamp >= 0 AND timestamp <= 1000 AND timestamp != 5",
-            "SELECT * FROM metrics WHERE timestamp IN (5, 10)",
-            "SELECT * FROM metrics WHERE timestamp >= 0 AND timestamp <= 1000 AND timestamp IS NOT NULL",
-            "SELECT * FROM metrics WHERE time >= 0",
-            "SELECT count(*) FROM metrics WHERE timestamp >= 0 AND timestamp <= 1000 GROUP BY metric_name",
-            "SELECT * FROM metrics m WHERE m.timestamp >= 0 AND m.timestamp <= 1000",
-            "SELECT * FROM metrics WHERE timestamp >= 0 AND timestamp <= 1000 AND NULL",
-            "SELECT * FROM metrics WHERE timestamp >= 0 AND (timestamp <= 1000) IS TRUE",
+            "SELECT * FROM metrics WHERE host NOT BETWEEN 'h0' AND 'h1'",
+            "SELECT * FROM metrics WHERE host BETWEEN 'h0' AND 'h1'",
+            "SELECT * FROM metrics WHERE host = 'h1' OR NOT (metric_name != 'cpu')",
+            "SELECT * FROM metrics WHERE host IN ('h1','h2') AND value_f64 > 1.5",
+            "SELECT * FROM (SELECT * FROM metrics WHERE timestamp >= 0 AND timestamp <= 1000) WHERE host = 'h1'",
+            "SELECT * FROM (SELECT * FROM metrics WHERE host = 'h1') WHERE timestamp >= 0 AND timestamp <= 1000",
+            "SELECT * FROM (SELECT * FROM metrics WHERE timestamp >= 5) WHERE timestamp <= 150",
+            "SELECT * FROM metrics WHERE timestamp >= -9223372036854775808 AND timestamp <= 10",
+            "SELECT * FROM metrics WHERE timestamp >= - 5 AND timestamp <= +10",
+            "SELECT DISTINCT host FROM metrics WHERE timestamp >= 0 AND timestamp <= 1000",
+            "SELECT host, count(*) AS c FROM metrics WHERE timestamp >= 0 AND timestamp <= 1000 GROUP BY host HAVING count(*) > 0 ORDER BY host LIMIT 5",
+            "SELECT * FROM metrics WHERE timestamp >= 0 AND timestamp <= 1000 AND host IS NULL",
+            "SELECT * FROM metrics WHERE (timestamp >= 0 AND timestamp <= 1000) AND true",
+            "SELECT * FROM metrics WHERE timestamp >= 5 + 5 AND timestamp <= 1000",
+            "SELECT * FROM metrics WHERE timestamp >= 5.0 AND timestamp <= 1000",
+            "SELECT * FROM metrics WHERE \"time\" >= 5",
+            "SELECT * FROM metrics WHERE host = 'h1'",
         ];
         for sql in sqls {
             let tr = qn.engine.extract_time_range(sql).await;
